@@ -546,3 +546,70 @@ Section Round14.
     apply bool_decide_eq_true, elem_of_firstn, rm_todo_spec in E2. destruct E2 as [_ Hn]. rewrite Hn. reflexivity.
   Qed.
 End Round14.
+
+(* ================= C06 end to end, lifecycle: retirement traces back to a correct node's ShouldRetire cache ================= *)
+Lemma plugin_observation_retire codec_ok cf seq prev_bytes now cache_att should_retire expected vals fails ro :
+  plugin_observation codec_ok cf seq prev_bytes now cache_att should_retire expected vals fails = Ok (Some ro) ->
+  ro_retire ro = true -> should_retire = Ok true.
+Proof.
+  unfold plugin_observation. intros H Hr.
+  destruct (seq <? 1); [discriminate|]. destruct (seq =? 1); [discriminate|].
+  destruct (decode_outcome (c_pver cf) prev_bytes) as [prev| |]; try discriminate.
+  destruct (now <? 0); [discriminate|].
+  destruct (bool_decide (o_stage prev = Retired)); [inversion H; subst; discriminate|].
+  destruct (verify_defs codec_ok (o_defs prev)); cbn [negb] in H; [|discriminate].
+  destruct (if c_has_pred cf && bool_decide (o_stage prev = Staging) then cache_att else Ok []) as [att| |]; try discriminate.
+  destruct should_retire as [retire| |]; try discriminate.
+  destruct (honest_votes codec_ok prev expected) as [rm up].
+  destruct (bool_decide (o_defs prev = ∅)); [inversion H; subst; cbn in Hr; subst; reflexivity|].
+  destruct fails; [discriminate|]. inversion H; subst. cbn in Hr. subst. reflexivity.
+Qed.
+
+Section Round06b.
+  Context (h : Z -> chandef -> list Z) (check : list Z -> option (gmap Z Z)) (codec_ok : chandef -> bool).
+  Context (cf : cfg) (seq : Z) (prev_bytes : list Z).
+  Local Notation tagged := (tagged check codec_ok cf seq prev_bytes).
+  Local Notation lsenders_ok := (lsenders_ok codec_ok cf seq prev_bytes).
+
+  Lemma tagged_correct_retire ss ob : bok prev_bytes -> lsenders_ok ss -> In (Some ob, true) (tagged ss) -> ob_retire ob = true ->
+    exists i rms ups vals, In (LCorrect i rms ups vals) ss /\ oi_retire i = Ok true.
+  Proof.
+    intros Hb Hok Hin Hr. unfold OutcomeEndToEnd.tagged in Hin. apply elem_of_list_In, elem_of_list_omap in Hin.
+    destruct Hin as (s & Hs & Ht). apply elem_of_list_In in Hs. unfold tagged1 in Ht.
+    destruct s as [i rms ups vals|b]; cbn [lsent l_correct] in Ht; [|cbn [option_map] in Ht; inversion Ht].
+    destruct (observe codec_ok cf seq prev_bytes i) as [[ro|]| |] eqn:Eo; try discriminate. cbn [option_map] in Ht.
+    destruct (Hok i rms ups vals Hs) as (Hwf & Hperm). destruct (Hperm ro Eo) as (Prm & Pup & Pval & Hsm).
+    unfold observe in Eo.
+    destruct (plugin_observation_wf _ _ _ _ _ _ _ _ _ _ _ Eo Hb Hwf) as (Hobs & Hnd & _ & _).
+    unfold obs_of_bytes in Ht. rewrite (observation_roundtrip rms ups vals ro Hobs Prm Pup Pval Hsm) in Ht.
+    rewrite has_dup_NoDup in Ht by (apply (Permutation.Permutation_NoDup (Permutation.Permutation_sym Prm)), Hnd).
+    inversion Ht; subst ob. cbn [obs_of_raw ob_retire ro_retire] in Hr.
+    exists i, rms, ups, vals. split; [exact Hs|]. exact (plugin_observation_retire _ _ _ _ _ _ _ _ _ _ _ Eo Hr).
+  Qed.
+
+  (* with at most f faulty senders, an instance retires only if some correct node's ShouldRetire cache said so; and a
+     staging instance leaves staging only on an attestation the retirement-report cache verifies *)
+  Theorem llo_stage_change_traces_back ss prev next :
+    bok prev_bytes -> lsenders_ok ss -> 1 < seq ->
+    outcome_step h cf seq prev (map fst (tagged ss)) = Ok next ->
+    (length (List.filter (fun p : option observation * bool => negb (snd p)) (tagged ss)) <= c_f cf)%nat ->
+    o_stage next <> o_stage prev ->
+    (o_stage next = Retired /\ exists i, (exists rms ups vals, In (LCorrect i rms ups vals) ss) /\ oi_retire i = Ok true) \/
+    (o_stage prev = Staging /\ o_stage next = Production /\ c_has_pred cf = true /\
+     exists va ob, Some ob ∈ map fst (tagged ss) /\ ob_att ob = GoodAttest va).
+  Proof.
+    intros Hb Hok Hseq Hstep Hf Hne.
+    destruct (stage_change_needs_votes_or_attestation h cf seq prev (map fst (tagged ss)) next Hseq Hstep Hne)
+      as (rr & obs & Ha & [(Hp & Hs & Hpred & Hatt)|(Hp & Hs & Hv)]).
+    - destruct Hs as [Hs|[Hs Hv]].
+      + right. split; [exact Hp|]. split; [exact Hs|]. split; [exact Hpred|exact Hatt].
+      + left. split; [exact Hs|]. unfold retire_votes in Hv.
+        assert (Hex : exists ob, In (Some ob, true) (tagged ss) /\ ob_retire ob = true) by (eapply votes_need_correct; eassumption).
+        destruct Hex as (ob & Hob & HP).
+        destruct (tagged_correct_retire ss ob Hb Hok Hob HP) as (i & rms & ups & vals & Hin & Hr). exists i. split; [eauto|exact Hr].
+    - left. split; [exact Hs|]. unfold retire_votes in Hv.
+      assert (Hex : exists ob, In (Some ob, true) (tagged ss) /\ ob_retire ob = true) by (eapply votes_need_correct; eassumption).
+      destruct Hex as (ob & Hob & HP).
+      destruct (tagged_correct_retire ss ob Hb Hok Hob HP) as (i & rms & ups & vals & Hin & Hr). exists i. split; [eauto|exact Hr].
+  Qed.
+End Round06b.
